@@ -300,6 +300,10 @@ def gen_cases(ck):
         c = reg_case(base + 4, L, en, base, image, nodes, ops, flags=0, cachable="WriteThrough", sibling_invalidators=True)
         c.kind = "reg-cached"
         cases.append(c)
+        for cach in ("WriteThrough", "WriteAround"):
+            c = reg_case(base + 4, L, en, base, image, nodes, ops, flags=0, cachable=cach, sibling_invalidators="all")
+            c.kind = "reg-cached"
+            cases.append(c)
         # the same history with a caching mode of its own for every sibling (NoCache / WriteThrough /
         # WriteAround mixed), and with device accesses failing at scripted points (uncached: compared
         # with the model too; cached: the rejection hits whichever operation next reaches the device)
